@@ -28,7 +28,7 @@ From AV Require Import Base.Bytes Base.Outcome Base.Utf8 Hash.HashModel Spec.Spe
   Xml.RoundTripLexer Xml.StrictValidDef Xml.ParserDepth Xml.RoundTripElem Xml.RoundTripFile Xml.TablesOk
   Xml.RoundTripCanonValues Xml.RoundTripCanon Xml.Utf8Closure Xml.RoundTripCanonFinal Xml.RoundTripCanonb Xml.RoundTripLexerComment Xml.ParserExamples Xml.RoundTripExamples
   Xml.RoundTripReload Xml.RoundTripReloadExamples Xml.RoundTripSetVersion
-  Xml.Reading Xml.ReadingLexer Xml.ReadingInterp Xml.ReadingParser Xml.ReadingExamples.
+  Xml.Reading Xml.ReadingLexer Xml.ReadingInterp Xml.ReadingParser Xml.ReadingExamples Xml.ReadingUnique.
 From AV Require Import Spec.SpecTypes.
 From AV Require Import Spec.SpecReal Hash.HashRealElement Hash.HashRealAttr Hash.HashRealEnum.
 Open Scope list_scope.
@@ -516,3 +516,15 @@ Theorem C01_reading_relaxations :
   map (fun d => is_ret (LOAD true d)) [doc_R1; doc_R2; doc_R3; doc_R4; doc_R5; doc_R6; doc_R7; doc_R8] =
   [true; true; true; true; true; true; true; true].
 Proof. exact relaxations_accepted. Qed.
+
+(* [U] the reading is unique (Xml/ReadingUnique.v): on well-formed trees the rendering is injective - unique readability of
+   the grammar, relaxations included - so the existential of C01_faithful determines the document; no hypothesis *)
+Theorem C01_reads_unique : forall (bs : list N) (d1 d2 : doc), Reads bs d1 -> Reads bs d2 -> d1 = d2.
+Proof. exact reads_unique. Qed.
+
+(* [U] unique readability of one item: two well-formed items whose texts start the same byte string (a character data
+   run being followed by markup or nothing) are the same item, and what follows is the same *)
+Theorem C01_item_unique :
+  forall (x y : xml) (r1 r2 : list N), WfX x -> WfX y -> render x ++ r1 = render y ++ r2 ->
+  (is_xtext x = true -> at_markup r1) -> (is_xtext y = true -> at_markup r2) -> x = y /\ r1 = r2.
+Proof. exact item_unique. Qed.
